@@ -434,6 +434,9 @@ fn run_iter<T, I: Iterator<Item = T>>(mut it: I, ops: &str, show: impl Fn(T) -> 
     Ok(out.join(";"))
 }
 
+fn l8(s: &str) -> Result<Vec<u8>, String> { Ok(list(s)?.into_iter().map(|x| x as u8).collect()) }
+fn l32(s: &str) -> Result<Vec<u32>, String> { Ok(list(s)?.into_iter().map(|x| x as u32).collect()) }
+
 fn cv_from(vals: &[usize]) -> CompactVector {
     CompactVector::from_slice(vals).unwrap()
 }
@@ -494,10 +497,14 @@ impl St {
             ("cv", "from_int") => CompactVector::from_int(num(a[0])?, num(a[1])?, num(a[2])?).ok().map(Obj::Cv),
             ("cv", "from_slice") => CompactVector::from_slice(&list(a[0])?).ok().map(Obj::Cv),
             ("cv", "from_slice_i64") => CompactVector::from_slice(&ilist(a[0])?).ok().map(Obj::Cv),
+            ("cv", "from_slice_u8") => CompactVector::from_slice(&l8(a[0])?).ok().map(Obj::Cv),
+            ("cv", "from_slice_u32") => CompactVector::from_slice(&l32(a[0])?).ok().map(Obj::Cv),
             ("cv", "build") => CompactVector::build_from_slice(&list(a[0])?).ok().map(Obj::Cv),
             ("cv", "default") => Some(Obj::Cv(CompactVector::default())),
             ("db", "from_slice") => DacsByte::from_slice(&list(a[0])?).ok().map(Obj::Db),
             ("db", "from_slice_i64") => DacsByte::from_slice(&ilist(a[0])?).ok().map(Obj::Db),
+            ("db", "from_slice_u8") => DacsByte::from_slice(&l8(a[0])?).ok().map(Obj::Db),
+            ("db", "from_slice_u32") => DacsByte::from_slice(&l32(a[0])?).ok().map(Obj::Db),
             ("db", "build") => DacsByte::build_from_slice(&list(a[0])?).ok().map(Obj::Db),
             ("db", "default") => Some(Obj::Db(DacsByte::default())),
             ("do", "from_slice") => {
@@ -512,7 +519,18 @@ impl St {
             ("do", "default") => Some(Obj::Do(DacsOpt::default())),
             ("ps", "from_slice") => PrefixSummedEliasFano::from_slice(&list(a[0])?).ok().map(Obj::Ps),
             ("ps", "from_slice_i64") => PrefixSummedEliasFano::from_slice(&ilist(a[0])?).ok().map(Obj::Ps),
+            ("ps", "from_slice_u8") => PrefixSummedEliasFano::from_slice(&l8(a[0])?).ok().map(Obj::Ps),
+            ("ps", "from_slice_u32") => PrefixSummedEliasFano::from_slice(&l32(a[0])?).ok().map(Obj::Ps),
             ("ps", "build") => PrefixSummedEliasFano::build_from_slice(&list(a[0])?).ok().map(Obj::Ps),
+            (k, "from_cv") if k == "wmr" || k == "wmd" || k == "wmb" => {
+                // the sequence as an existing CompactVector (any width, any construction history)
+                let cv = match self.get(a[0])? { Obj::Cv(v) => v.clone(), _ => return Err("not a cv".into()) };
+                match k {
+                    "wmr" => WaveletMatrix::<Rank9Sel>::new(cv).ok().map(Obj::WmR),
+                    "wmd" => WaveletMatrix::<DArray>::new(cv).ok().map(Obj::WmD),
+                    _ => WaveletMatrix::<BitVector>::new(cv).ok().map(Obj::WmB),
+                }
+            }
             ("wmr", "new") => WaveletMatrix::<Rank9Sel>::new(cv_from(&list(a[0])?)).ok().map(Obj::WmR),
             ("wmd", "new") => WaveletMatrix::<DArray>::new(cv_from(&list(a[0])?)).ok().map(Obj::WmD),
             ("wmb", "new") => WaveletMatrix::<BitVector>::new(cv_from(&list(a[0])?)).ok().map(Obj::WmB),
